@@ -576,9 +576,38 @@ func (c *Conn) Read(buff []byte) (n int, err error) { //nolint:cyclop
 	default:
 	}
 
+	deliver := func(out any) (n int, done bool, err error) {
+		switch val := out.(type) {
+		case ([]byte):
+			if len(buff) < len(val) {
+				return 0, true, dtlserrors.ErrBufferTooSmall
+			}
+			copy(buff, val)
+
+			return len(val), true, nil
+		case (error):
+			return 0, true, val
+		}
+
+		return 0, false, nil
+	}
+
 	for {
 		select {
 		case <-c.closed.Done():
+			// A payload that was accepted before the connection closed (the
+			// peer wrote and then closed) is still handed over: when both are
+			// ready select picks at random and the payload would be lost.
+			select {
+			case out, ok := <-c.decrypted:
+				if ok {
+					if n, done, err := deliver(out); done {
+						return n, err
+					}
+				}
+			default:
+			}
+
 			return 0, io.EOF
 		case <-c.readDeadline.Done():
 			return 0, dtlserrors.ErrDeadlineExceeded
@@ -586,16 +615,8 @@ func (c *Conn) Read(buff []byte) (n int, err error) { //nolint:cyclop
 			if !ok {
 				return 0, io.EOF
 			}
-			switch val := out.(type) {
-			case ([]byte):
-				if len(buff) < len(val) {
-					return 0, dtlserrors.ErrBufferTooSmall
-				}
-				copy(buff, val)
-
-				return len(val), nil
-			case (error):
-				return 0, val
+			if n, done, err := deliver(out); done {
+				return n, err
 			}
 		}
 	}
